@@ -181,3 +181,24 @@ def boolean_spellings(payload):
             if got is not want:
                 bad.append({"option": name, "argv": argv, "expected": want, "got": repr(got)})
     return {"total": total, "switches": [n for n, _ in switches], "failures": bad[:6]}
+
+
+def host_port_applied(payload):
+    """host= / port= given alone or together are applied to the listen address (never silently dropped), keyword and command-line form alike"""
+    cases = [({"port": 1234}, ["--port=1234"], (None, 1234)), ({"host": "127.0.0.1"}, ["--host=127.0.0.1"], ("127.0.0.1", None)),
+             ({"host": "127.0.0.1", "port": 4321}, ["--host=127.0.0.1", "--port=4321"], ("127.0.0.1", 4321)),
+             ({"port": "2345"}, ["--port=2345"], (None, 2345))]
+    bad = []
+    for kw, argv, (host, port) in cases:
+        for form, build_it in (("keyword", lambda: Adjustments(**kw)),
+                               ("cli", lambda: Adjustments(**{k: v for k, v in Adjustments.parse_args(argv + ["waitress.compat:WIN"]).items() if k not in ("help", "app")}))):
+            try:
+                a = build_it()
+            except Exception as e:
+                bad.append({"form": form, "kw": kw, "error": type(e).__name__ + ": " + str(e)[:80]})
+                continue
+            addrs = [(l[3][0], l[3][1]) for l in a.listen]
+            ok = bool(addrs) and all((host is None or h == host) and (port is None or p == port) for h, p in addrs)
+            if not ok:
+                bad.append({"form": form, "kw": kw, "listen": addrs, "expected_host": host, "expected_port": port})
+    return {"total": len(cases) * 2, "failures": bad}
